@@ -153,6 +153,20 @@ class ConstFold(ast.NodeTransformer):
                 node.args = rest
         return node
 
+    def visit_BinOp(self, node):
+        self.generic_visit(node)
+        # '<literal> %s ..' % <literal> / (<literals>): the string it is
+        if isinstance(node.op, ast.Mod) and isinstance(node.left, ast.Constant) and isinstance(node.left.value, str):
+            r = node.right
+            vals = [r.value] if isinstance(r, ast.Constant) and type(r.value) in (str, int) else \
+                [e.value for e in r.elts] if isinstance(r, ast.Tuple) and r.elts and all(isinstance(e, ast.Constant) and type(e.value) in (str, int) for e in r.elts) else None
+            if vals is not None:
+                try:
+                    return ast.copy_location(ast.Constant(value=node.left.value % tuple(vals)), node)
+                except (TypeError, ValueError):
+                    pass
+        return node
+
     def visit_Compare(self, node):
         self.generic_visit(node)
         if len(node.ops) == 1 and isinstance(node.left, ast.Constant) and isinstance(node.comparators[0], ast.Constant):
@@ -206,6 +220,27 @@ class NextToLoop(ast.NodeTransformer):
                 counts[n.arg] = counts.get(n.arg, 0) + 1
 
         def lower(st):
+            if isinstance(st, ast.Return) and st.value is not None:
+                # return next((E for v in IT if C), D)  ->  for v in IT: if C: return E  /  return D
+                c = st.value
+                if not (isinstance(c, ast.Call) and isinstance(c.func, ast.Name) and c.func.id == 'next' and len(c.args) == 2 and not c.keywords and
+                        isinstance(c.args[0], ast.GeneratorExp) and len(c.args[0].generators) == 1 and isinstance(c.args[1], (ast.Constant, ast.Name))):
+                    return [st]
+                ge, gen = c.args[0], c.args[0].generators[0]
+                if gen.is_async or not isinstance(gen.target, ast.Name):
+                    return [st]
+                v = gen.target.id
+                inside = sum(1 for n in ast.walk(ge) if isinstance(n, ast.Name) and n.id == v)
+                if counts.get(v, 0) != inside or (isinstance(c.args[1], ast.Name) and c.args[1].id == v):
+                    return [st]
+                if any(isinstance(n, (ast.Lambda, ast.GeneratorExp, ast.ListComp, ast.SetComp, ast.DictComp, ast.NamedExpr, ast.Yield, ast.Await))
+                       for x in [ge.elt] + gen.ifs + [gen.iter] for n in ast.walk(x)):
+                    return [st]
+                hit = [ast.copy_location(ast.Return(value=ge.elt), st)]
+                test = gen.ifs[0] if len(gen.ifs) == 1 else ast.BoolOp(op=ast.And(), values=list(gen.ifs)) if gen.ifs else None
+                body = [ast.copy_location(ast.If(test=test, body=hit, orelse=[]), st)] if test is not None else hit
+                loop = ast.copy_location(ast.For(target=ast.Name(id=v, ctx=ast.Store()), iter=gen.iter, body=body, orelse=[], type_comment=None), st)
+                return [ast.fix_missing_locations(loop), ast.copy_location(ast.Return(value=c.args[1]), st)]
             if not (isinstance(st, ast.Assign) and len(st.targets) == 1 and isinstance(st.targets[0], ast.Name)):
                 return [st]
             c = st.value
